@@ -542,8 +542,11 @@ class Facts:
             raw = inline.normalise(raw)
         self.raw = raw
         self.tu = raw.get("tu")
-        self.fns = [Fn(f, self) for f in raw.get("functions", [])]
-        self.by_id = {f.id: f for f in self.fns}
+        allf = [Fn(f, self) for f in raw.get("functions", [])]
+        self.by_id = {f.id: f for f in allf}
+        # functions that do not exist in the reference tree are analysed through the callers they were spliced into
+        self.new_helpers = [f for f in allf if f.raw.get("new_helper")]
+        self.fns = [f for f in allf if not f.raw.get("new_helper")]
         self.records = raw.get("records", {})
         self.enums = raw.get("enums", {})
         self.asm = raw.get("asm", [])
